@@ -1,2 +1,93 @@
-// harness site: src/mania/convert/mod.rs
+// harness site: src/mania/convert/mod.rs  (C19: key count of a mania convert)
 #![allow(dead_code, unused_imports, clippy::all, clippy::pedantic)]
+
+use super::*;
+use crate::verif_harness::common::verif_replay_table;
+
+use rosu_map::section::hit_objects::hit_samples::HitSoundType;
+
+/// Legacy key-mod bits Key4..Key8 = 1<<15..1<<19, Key1 = 1<<26, Key3 = 1<<27, Key2 = 1<<28, Key9 = 1<<24.
+fn legacy_key_values(bits: u32) -> [bool; 10] {
+    use rosu_mods::GameModsLegacy as L;
+    let m = L::from_bits(bits);
+    let mut v = [false; 10];
+    v[1] = m.contains(L::Key1);
+    v[2] = m.contains(L::Key2);
+    v[3] = m.contains(L::Key3);
+    v[4] = m.contains(L::Key4);
+    v[5] = m.contains(L::Key5);
+    v[6] = m.contains(L::Key6);
+    v[7] = m.contains(L::Key7);
+    v[8] = m.contains(L::Key8);
+    v[9] = m.contains(L::Key9);
+    v
+}
+
+/// L objects of symbolic kind (circle / spinner / hold note — sliders are counted like spinners by
+/// `target_columns`, and a slider value needs path geometry), cs and od on the grid k/10.
+fn target_columns_any<const L: usize>() {
+    let kcs: u8 = kani::any();
+    let kod: u8 = kani::any();
+    kani::assume(kcs <= 100 && kod <= 100);
+    let mut map = Beatmap {
+        cs: f32::from(kcs) / 10.0,
+        od: f32::from(kod) / 10.0,
+        ..Beatmap::default()
+    };
+    let kinds: [u8; L] = kani::any();
+    let mut n_long = 0usize;
+    for i in 0..L {
+        kani::assume(kinds[i] < 3);
+        let kind = match kinds[i] {
+            0 => HitObjectKind::Circle,
+            1 => {
+                n_long += 1;
+                HitObjectKind::Spinner(Spinner { duration: 100.0 })
+            }
+            _ => HitObjectKind::Hold(HoldNote { duration: 100.0 }),
+        };
+        map.hit_objects.push(HitObject { pos: Pos::new(0.0, 0.0), start_time: 0.0, kind });
+        map.hit_sounds.push(HitSoundType::default());
+    }
+    let bits: u32 = kani::any();
+    let mods = GameMods::from(bits);
+    let keys = target_columns(&map, &mods);
+
+    let kv = legacy_key_values(bits);
+    let any_key = kv.iter().any(|b| *b);
+    if any_key {
+        let as_int = keys as usize;
+        assert!(keys == as_int as f32 && as_int >= 1 && as_int <= 9 && kv[as_int], "C19 key count is the value of an active key mod");
+    } else {
+        assert!(keys == 4.0 || keys == 5.0 || keys == 6.0 || keys == 7.0, "C19 key count without key mod is between 4 and 7");
+        if L > 0 && n_long * 5 < L {
+            assert!(keys == 7.0, "C19 mostly-circle maps convert to 7K");
+        }
+    }
+    kani::cover!(!any_key && keys == 4.0, "4K reached");
+    kani::cover!(!any_key && keys == 5.0, "5K reached");
+    kani::cover!(any_key && keys == 9.0, "9K key mod");
+    core::mem::forget(map);
+}
+
+#[kani::proof]
+#[kani::unwind(12)]
+pub fn c19_target_columns_len0() {
+    target_columns_any::<0>();
+}
+
+#[kani::proof]
+#[kani::unwind(12)]
+pub fn c19_target_columns_len5() {
+    target_columns_any::<5>();
+}
+
+#[kani::proof]
+#[kani::unwind(12)]
+pub fn c19_target_columns_len8() {
+    target_columns_any::<8>();
+}
+
+verif_replay_table!(verif_replay_mania_convert;
+    c19_target_columns_len0, c19_target_columns_len5, c19_target_columns_len8,
+);
